@@ -10,7 +10,7 @@ from vlib import common
 from vlib.coqparse import parse
 
 OCC_TOL = 2e-3   # calibrated: correct code gives <= 2e-5 on these problem families (dt*|H| <= 0.3)
-EN_TOL = 2e-2
+EN_TOL = 5e-3
 
 
 def trace_stage(ctx, kind, n_cases, tag):
@@ -83,7 +83,11 @@ def run_e2e(case):
     from pulser.backend import Energy, Occupation
 
     prob = case["prob"]
-    et = [0.5, 1.0] if prob["steps"] % 2 == 0 else [1.0]
+    if "slm" in case:
+        # a Hamiltonian rebuilt wrongly for a single step shows at that step only: look at every step
+        et = [k / prob["steps"] for k in range(1, prob["steps"] + 1)]
+    else:
+        et = [0.5, 1.0] if prob["steps"] % 2 == 0 else [1.0]
     with warnings.catch_warnings():
         warnings.simplefilter("ignore")
         cfg = emu_mps.MPSConfig(observables=[Occupation(evaluation_times=et), Energy(evaluation_times=et)],
@@ -117,7 +121,7 @@ def run_e2e(case):
 def e2e_stage(ctx, n_cases):
     worst = 0.0
     for i in range(n_cases):
-        case = e2e_case(ctx.rng, xy=(i % 4 == 3), reorder=(i % 2 == 1), local=(i % 3 != 2), slm=(i % 5 in (1, 3)))
+        case = e2e_case(ctx.rng, xy=(i % 4 == 3), reorder=(i % 2 == 1), local=(i % 3 != 2), slm=(i % 5 in (1, 3, 4)))
         prob = case["prob"]
         try:
             errs, order = run_e2e(case)
